@@ -114,13 +114,47 @@ func execPlugin(keep bool, cs hx.Sx) hx.Sx {
 
 func pathsSx(ps [][]string) hx.Sx { return hx.List(ps, hx.Ss) }
 
+func sev(tag int) int { return map[int]int{0: 0, 1: 1, 3: 2, 2: 3}[tag] }
+
+// one plugin instance, the events of the case one after the other (each a fresh decode, one Do)
+func execSeq(keep bool, cs hx.Sx) hx.Sx {
+	it := hx.Items(cs)
+	sels := strs(it[0])
+	ps, err := cfg.ParseNestedFields(sels)
+	if err != nil {
+		return hx.L(hx.I(9), hx.S("config rejected: "+err.Error()))
+	}
+	var p pipeline.ActionPlugin
+	if msg := hx.Catch(func() { p = newPlugin(keep, sels) }); msg != "" {
+		return hx.L(hx.I(9), hx.S("Start "+msg))
+	}
+	overall := 0
+	var rows []hx.Sx
+	for i, ev := range hx.Items(it[1]) {
+		res, msg := doOnce(p, hx.JSONText(ev))
+		if msg != "" {
+			return hx.L(hx.I(9), hx.S(fmt.Sprintf("Do #%d: %s", i, msg)))
+		}
+		tag := classify(keep, sels, fromSx(ev), fromSx(res))
+		if sev(tag) > sev(overall) {
+			overall = tag
+		}
+		rows = append(rows, hx.L(hx.I(tag), res))
+	}
+	return hx.L(hx.I(overall), hx.L(rows...), pathsSx(ps))
+}
+
 func exec(which int, cs hx.Sx) hx.Sx {
 	switch which {
 	case 0:
 		return execPlugin(false, cs)
 	case 1:
 		return execPlugin(true, cs)
-	case 2:
+	case 6:
+		return execSeq(false, cs)
+	case 8:
+		return execSeq(true, cs)
+	case 2, 7:
 		var ps [][]string
 		var err error
 		if msg := hx.Catch(func() { ps, err = cfg.ParseNestedFields(strs(cs)) }); msg != "" {
@@ -220,7 +254,21 @@ func doPlugin(c *hmain.Ctx, stream string, which int, sels []string, ev hx.Sx, n
 	c.Do(stream+sfx, which, cs, nontrivial)
 }
 
+// file one history case (which 6 / 8) under the stream its worst classification demands
+func doSeq(c *hmain.Ctx, stream string, which int, sels []string, evs []hx.Sx, nontrivial bool) {
+	cs := hx.L(hx.Ss(sels), hx.L(evs...))
+	obs := exec(which, cs)
+	lastKey, lastObs = fmt.Sprintf("%d|%s", which, hx.String(cs)), obs
+	sfx := suffix(obs)
+	c.W.Count("class:" + map[int]string{6: "remove-seq", 8: "keep-seq"}[which] + map[string]string{"": "~identical"}[sfx] + sfx)
+	c.Do(stream+sfx, which, cs, nontrivial)
+}
+
 func main() {
+	// as cmd/file.d/file.d.go:97 and fd/file.d.go:100 set them in production (the library default pool is 128 nodes):
+	// decoding and the AddFieldNoAlloc of the marks then walk the 16/32/64 node-pool expansions
+	insaneJSON.StartNodePoolSize = 16
+	insaneJSON.DisableBeautifulErrors = true
 	logger.Level.SetLevel(zap.FatalLevel)
 	hmain.Run(&hmain.Prop{
 		ID:   "C18",
